@@ -5,11 +5,12 @@
 (* of RelAlg.tla.  Batch (JSON):                                           *)
 (*   lits : literal dictionary (repr text |-> integer)                     *)
 (*   dbs  : sequence of databases (table name |-> rows)                    *)
-(*   obs  : sequence of [ast, db (index into dbs), outs]                   *)
-(*          outs = the DISTINCT outcomes seen over the engines, each       *)
-(*          [res, rows]: res = "ok" with the fetched rows, or              *)
-(*          "parse:<Type>" / "exec:<Type>" when parsing / executing raised *)
-(* Verdict per observation: <<wf, codes, crash>> with, per outcome,        *)
+(*   obs  : sequence of [ast, runs]; runs = sequence of [db (index into    *)
+(*          dbs), outs]; outs = the DISTINCT outcomes seen over the        *)
+(*          engines on that database, each [res, rows]: res = "ok" with    *)
+(*          the fetched rows, or "parse:<Type>" / "exec:<Type>" when       *)
+(*          parsing / executing raised                                     *)
+(* Verdict per observation: <<wf, codes, crash>>, codes[run][outcome] =    *)
 (*   1  rows is an allowed result of the statement over the database       *)
 (*   0  rejected (wrong rows, or an exception on a well-formed statement)  *)
 (* wf = 1 iff the statement is WellFormed (the generator's promise; 0 is a *)
@@ -27,13 +28,11 @@ N == Len(Batch.obs)
 VARIABLES tid
 vars == <<tid>>
 Obs == Batch.obs[tid]
-Db == Batch.dbs[Obs.db]
-
-Code(out) == IF out.res = "ok" /\ Accepts(Obs.ast, Db, out.rows) THEN 1 ELSE 0
+Code(run, out) == IF out.res = "ok" /\ Accepts(Obs.ast, Batch.dbs[run.db], out.rows) THEN 1 ELSE 0
 Init == tid \in 1..N
 Next == UNCHANGED vars
 Spec == Init /\ [][Next]_vars
-Judge == TLCSet(tid, <<B(WellFormed(Obs.ast)), [i \in DOMAIN Obs.outs |-> Code(Obs.outs[i])], ImplHints(Obs.ast).crash>>)
+Judge == TLCSet(tid, <<B(WellFormed(Obs.ast)), [r \in DOMAIN Obs.runs |-> [i \in DOMAIN Obs.runs[r].outs |-> Code(Obs.runs[r], Obs.runs[r].outs[i])]], ImplHints(Obs.ast).crash>>)
 ASSUME \A i \in 1..N : TLCSet(i, <<>>)
 Post == \A i \in 1..N : PrintT(<<"VERDICT", i>> \o TLCGet(i))
 =============================================================================
